@@ -94,7 +94,7 @@ func newTreePlan(seed int64, quick bool) *treePlan {
 		p.freeRuns = 1
 	} else {
 		p.sys = systematicSpecs(4, []string{oOK, oErr, oPanicStr, oNFIgnored})
-		p.nRandom = 150_000
+		p.nRandom = 220_000
 		p.lim = genLimits{maxStages: 24, maxDepth: 4, maxFan: 6}
 		p.orderCap = 120
 		p.randOrder = 3
@@ -186,7 +186,7 @@ func (p *treePlan) runItem(i int, slot string, race bool, a *agg, logf func(stri
 			var choices []int
 			for serialRuns < p.orderCap {
 				logf(fmt.Sprintf("item %d serial choices=%v", i, choices))
-				out := runCase(spec, runOpts{Mode: "serial", Choices: choices, Slot: slot})
+				out := runCase(spec, runOpts{Mode: "serial", Choices: choices, Slot: slot, CancelAt: -1})
 				report(out)
 				serialRuns++
 				// next: increment the last choice that still has an alternative
@@ -212,13 +212,26 @@ func (p *treePlan) runItem(i int, slot string, race bool, a *agg, logf func(stri
 			for k := 0; k < p.randOrder; k++ {
 				sd := int64(r.next() >> 1)
 				logf(fmt.Sprintf("item %d serial random=%d", i, sd))
-				report(runCase(spec, runOpts{Mode: "serial", UseRand: true, RandSeed: sd, Slot: slot}))
+				report(runCase(spec, runOpts{Mode: "serial", UseRand: true, RandSeed: sd, Slot: slot, CancelAt: -1}))
 			}
 		}
 	} else {
 		sd := int64(r.next() >> 1)
 		logf(fmt.Sprintf("item %d serial random=%d", i, sd))
-		report(runCase(spec, runOpts{Mode: "serial", UseRand: true, RandSeed: sd, Slot: slot}))
+		report(runCase(spec, runOpts{Mode: "serial", UseRand: true, RandSeed: sd, Slot: slot, CancelAt: -1}))
+	}
+	// beyond the statement: the context shared by the pooled stages (a query's deadline) is cancelled in mid-flight
+	if !sysItem && i%8 == 3 && gated >= 2 {
+		for k := 0; k < 2; k++ {
+			sd := int64(r.next() >> 1)
+			at := 1 + r.intn(gated)
+			logf(fmt.Sprintf("item %d serial random=%d cancel-before-gate=%d", i, sd, at))
+			report(runCase(spec, runOpts{Mode: "serial", UseRand: true, RandSeed: sd, Slot: slot, CancelAt: at}))
+		}
+		sd := int64(r.next() >> 1)
+		at := 4 + r.intn(6*spec.N)
+		logf(fmt.Sprintf("item %d free seed=%d cancel-at-event=%d", i, sd, at))
+		report(runCase(spec, runOpts{Mode: "free", RandSeed: sd, MaxWorkers: 4, Slot: slot, CancelAt: at}))
 	}
 	free := p.freeRuns
 	if race {
@@ -228,7 +241,7 @@ func (p *treePlan) runItem(i int, slot string, race bool, a *agg, logf func(stri
 		sd := int64(r.next() >> 1)
 		mw := []int{1, 2, 4, 16}[r.intn(4)]
 		logf(fmt.Sprintf("item %d free seed=%d workers=%d", i, sd, mw))
-		report(runCase(spec, runOpts{Mode: "free", RandSeed: sd, MaxWorkers: mw, Slot: slot}))
+		report(runCase(spec, runOpts{Mode: "free", RandSeed: sd, MaxWorkers: mw, Slot: slot, CancelAt: -1}))
 	}
 }
 
